@@ -98,7 +98,7 @@ def judge(at, cm, r, method, fit, viol, known, tags, neg=False):
                     f1 += 1
                     continue
                 dgl = abs(g - a)
-                if dgl > bud and fit == "dlite" and len(pts) >= 3 and not straight and turning < 0.1 and dgl < 0.5:
+                if dgl > bud and fit == "dlite" and len(pts) >= 3 and not straight and turning < 0.1 and dgl < 0.08:
                     import forsys.virtual_edges as ve
                     with fsutil.quiet():
                         xc, yc = ve.calculate_circle_center(be.vertices, method=fit)
